@@ -35,6 +35,9 @@ func runC06(c *Ctx, r *Report) {
 	// "on a proper prefix the matcher asks for more data": the verdict tables contain the proper prefixes of the
 	// small protocols' first messages (a 12-byte signature delivered as 5..11 bytes, a banner without its end, ...)
 	c14Tables(c, r, "C06.R13")
+	c01R4(c, r, "C06.R16")    // evaluating a matcher never changes what later matchers read: what prefetch appends is a copy of what it read (never a view of the pooled chunk it returns)
+	c08R3(c, r, "C06.R17")    // ... and no view of a pooled buffer is retained by the connection
+	c05R5(c, r, "C06.R18")    // a message below the limit is prefetched whole however it is fragmented: below the limit prefetch performs exactly one read, whatever the fill
 	c02R1(c, r, "C06.R8")     // the combinators hand a "need more data" answer up unchanged (it is never overwritten by a later set's "no")
 	c02Router(c, r, "C06.R9") // the router never acts on a verdict that is stale for the stream as it is now (fragmented == whole delivery)
 }
